@@ -384,6 +384,22 @@ def r2(chk, facts):
         cs = [cal for _, _, cal in e.call_sites() if cal == f"{P}::from_text"]
         chk.expect(bool(cs), f"text-entry:{name}", f"{e.key} must parse through Principal::from_text (the only place where the canonical "
                                                   f"form is enforced)", ok_detail=f"{name} -> from_text")
+        # ... and hands it the text exactly as received: normalising first (trim, case folding, replacing characters) makes the entry
+        # point accept texts that are not the canonical text up to case
+        hh = p.hir.get(e.key)
+        if hh is not None:
+            from facts import callee as _callee, walk as _walk, expr_path as _ep
+            pnames = [y.get("n") for prm in hh.get("params") or [] for y in _walk(prm) if y.get("k") == "bind"]
+            for n in _walk(hh["body"]):
+                if n.get("k") == "call" and (_callee(n) or "") == f"{P}::from_text" and n.get("args"):
+                    a = n["args"][0]
+                    adaptors = [y["m"] for y in _walk(a) if y.get("k") == "mcall" and y["m"] not in ("as_ref", "as_str", "borrow", "deref")]
+                    calls_ = [(_callee(y) or "") for y in _walk(a) if y.get("k") == "call" and not (_callee(y) or "").endswith(("::deref", "::as_ref", "::borrow"))]
+                    root = (_ep(a) or "").split(".")[0]
+                    chk.expect(not adaptors and not calls_ and root in pnames, f"text-entry:{name}:text-unchanged",
+                               f"{e.key} passes `{_ep(a) or 'an expression'}` (adaptors {adaptors + calls_}) to from_text instead of the text it received: "
+                               f"texts that differ from the canonical text by more than case would be accepted through this entry point",
+                               where=f"{hh['span']['file']}:{n.get('ln')}", ok_detail="argument is the parameter itself")
     # no other function turns text into a Principal
     for k, bb in p.bodies.items():
         if k in known or k == b.key or bb.j.get("kind") == "Closure":
